@@ -131,6 +131,8 @@ func newPkg(pkg *packages.Package, u *Universe) Package {
 				}
 
 				if named != nil {
+					// a generic receiver is an instantiation: group under the declared (origin) type
+					named = named.Origin()
 					p.methods[named] = append(p.methods[named], x)
 				}
 			} else if x.Parent() == pkg.Types.Scope() {
@@ -323,7 +325,7 @@ func (p *pkgInfo) Functions() map[string]*types.Func {
 }
 
 func (p *pkgInfo) MethodsOf(n *types.Named, ptr bool) []*types.Func {
-	funcs, _ := p.methods[n]
+	funcs, _ := p.methods[n.Origin()]
 
 	if ptr {
 		return funcs
